@@ -16,6 +16,9 @@ LEVEL_TEXT = ("static: decides the lock discipline race freedom rests on, for al
               "re-tests its predicate under the lock and every emptier notifies under the lock; (TEARDOWN) destroy marks down, stops the watcher, joins the "
               "reload thread, then tears down. (WAKE) a request that becomes the earliest to time out wakes the event thread. Does not decide other lost wake-ups, fairness or timing."
               " Also decides that queued event updates are merged only into live requests for the same handle, never into a queued removal.")
+# seventh/eighth-round addition
+TECHNIQUE += "; " + 'loop membership of every single condition wait'
+LEVEL_TEXT += " " + '(COND, eighth round) every ares_thread_cond_wait / cond_timedwait of the queue-empty wait sits inside a loop that re-tests the queue.'
 LEVEL_NOTE = ("trusts clang CFG + extractor; indirect calls resolved by slot (assignments / initialisers / parameter-to-field forwarding) and per container "
               "instance; ares_init_options (unpublished object) and ares_destroy (exclusive by contract) are treated as holding the lock")
 DESIGN_REF = "DESIGN.md §6/C11"
